@@ -674,7 +674,9 @@ fn reads_differ(root: &Path, threads: &[String], scratch: &Path, tag: &str, in_p
 /// `key` = which read differs: the replay / cursor / selection / get reads are answered from the full sidecar
 /// only, so nothing but a stale full sidecar explains a difference there; the mr / comp sidecars and the indexes
 /// explain differences of the cut-point and compaction-status reads only.
-fn classify_cache_state(root: &Path, id: &str, point: &str, key: &str, default: &str) -> String {
+/// `inflight` = ids of the frames the crashed call appended in the live run: the known mr / comp finding is a sidecar
+/// that lacks ONLY such frames (one record short, the hole stays); anything else missing or extra is a new violation.
+fn classify_cache_state(root: &Path, id: &str, point: &str, key: &str, inflight: &[String], default: &str) -> String {
     let truth: Vec<Body> = read_bodies(&truth_path(root)).into_iter().flatten().filter(|b| b.ok && b.continuity && b.stream == id).collect();
     let dir = data_dir(root).join("continuity_streams");
     let wellformed = |p: &Path| -> Option<Vec<Body>> {
@@ -690,7 +692,13 @@ fn classify_cache_state(root: &Path, id: &str, point: &str, key: &str, default: 
     if let Some(f) = wellformed(&side_path(root, id)) {
         let contiguous = f.iter().enumerate().all(|(i, b)| b.seq == i as u64);
         if !f.is_empty() && contiguous && f.len() < truth.len() && f.iter().zip(truth.iter()).all(|(a, b)| a.id == b.id) {
-            return "full_sidecar_wellformed_stale_prefix".into();
+            // the known finding: the sidecar lacks only frames of the crashed call (crash between the log flush and the
+            // sidecar append), or the crash cut an in-place rebuild (any prefix); a sidecar that lost EARLIER frames
+            // otherwise is something else
+            if truth[f.len()..].iter().all(|b| inflight.contains(&b.id)) || point.starts_with("cache.rebuild") {
+                return "full_sidecar_wellformed_stale_prefix".into();
+            }
+            return "full_sidecar_stale_beyond_inflight_frames".into();
         }
     }
     if !matches!(key, "cut" | "status") {
@@ -704,8 +712,14 @@ fn classify_cache_state(root: &Path, id: &str, point: &str, key: &str, default: 
         match wellformed(&dir.join(&file)) {
             Some(m) => {
                 let ids: Vec<String> = m.iter().map(|b| b.id.clone()).collect();
-                if ids != proj(kinds) {
-                    return "derived_sidecar_wellformed_not_projection".into();
+                let want = proj(kinds);
+                if ids != want {
+                    let missing: Vec<&String> = want.iter().filter(|x| !ids.contains(x)).collect();
+                    let rest: Vec<String> = want.iter().filter(|x| ids.contains(x)).cloned().collect();
+                    if !missing.is_empty() && missing.iter().all(|x| inflight.contains(x)) && rest == ids {
+                        return "derived_sidecar_wellformed_not_projection".into();
+                    }
+                    return "derived_sidecar_differs_beyond_inflight_frames".into();
                 }
             }
             // a line that is not one frame (torn by a crash between body and newline, the next append glued on)
@@ -718,7 +732,10 @@ fn classify_cache_state(root: &Path, id: &str, point: &str, key: &str, default: 
         "cache.side.body", "cache.side.nl", "cache.side.flushed", "cache.side.indexed", "cache.mr.body", "cache.mr.nl", "cache.mr.flushed", "cache.mr.seek", "cache.mr.msgidx",
         "cache.mr.done", "cache.comp.body", "cache.comp.nl", "cache.comp.flushed",
     ];
-    if index_window.contains(&point) || point.starts_with("msgidx.") || point.starts_with("seekidx.") || point.starts_with("ordidx.") || point.starts_with("compidx.") {
+    // (the known index finding: an entry of a frame of the crashed call is missing; it shows once follow-up appends
+    // have been indexed behind the hole - never on the recovered store as found, never without an in-flight frame)
+    let in_window = index_window.contains(&point) || point.starts_with("msgidx.") || point.starts_with("seekidx.") || point.starts_with("ordidx.") || point.starts_with("compidx.");
+    if in_window && !inflight.is_empty() && default.ends_with("followups") {
         return "derived_index_wellformed_not_projection".into();
     }
     default.to_string()
@@ -1115,6 +1132,8 @@ fn analyse(
         Op::Branch { .. } | Op::Handoff { .. } => threads0.last().cloned(),
         _ => None,
     };
+    // ids of the frames the in-flight call appended in the live run (frame identity 4 * op index + j)
+    let inflight_ids: Vec<String> = fids.iter().filter(|(_, f)| **f / 4 == op_index as u64).map(|(id, _)| id.clone()).collect();
     let truth_snap = read_bodies(&truth_path(root));
     let stale_window = inflight_stream.as_ref().map(|x| {
         let n = truth_snap.iter().flatten().filter(|b| b.continuity && b.stream == *x).count();
@@ -1174,7 +1193,7 @@ fn analyse(
     }
     for (t, key, d) in r0.unwrap_or_default() {
         let class = match threads0.get(t) {
-            Some(id) => classify_cache_state(root, id, win, &key, "reads_differ_after_restart"),
+            Some(id) => classify_cache_state(root, id, win, &key, &inflight_ids, "reads_differ_after_restart"),
             None => "reads_differ_after_restart".into(),
         };
         violations.push((format!("after restart at {} (op {op_index}): {d}", s.name), class));
@@ -1319,7 +1338,7 @@ fn analyse(
     }
     for (t, key, d) in r1.unwrap_or_default() {
         let class = match threads1.get(t) {
-            Some(id) => classify_cache_state(root, id, win, &key, "reads_differ_after_followups"),
+            Some(id) => classify_cache_state(root, id, win, &key, &inflight_ids, "reads_differ_after_followups"),
             None => "reads_differ_after_followups".into(),
         };
         violations.push((format!("after crash at {} (op {op_index}), restart and follow-ups: {d}", s.name), class));
